@@ -15,7 +15,7 @@
     (malloc/realloc/free of mp->buffer, boundary, regex_t), libc internals, the int
     truncation of [wb] for one buffer >= 2 GiB. *)
 From ZV Require Import Base.Bytes Dl.DlWrite Dl.Multipart Dl.FileLemmas Dl.DlProofs Dl.MpStream
-  Dl.MpSafe Dl.DlInv Dl.LiteralMatcher Dl.LiteralProofs.
+  Dl.MpSafe Dl.DlInv Dl.LiteralMatcher Dl.LiteralProofs Dl.Session Dl.SessionProofs Dl.RescanProofs.
 Local Open Scope N_scope.
 
 Theorem C17_mpx_safe : forall H doff ridx rx_comp rx_exec,
@@ -67,6 +67,53 @@ Theorem C17_mismatch_zeroed : forall H doff ridx s bs s',
     fread (d_file s') (doff + c_start c) (N.to_nat (c_len c)) = repeat 0 (N.to_nat (c_len c)).
 Proof. exact dlw_fail_zeroed_gen. Qed.
 Print Assumptions C17_mismatch_zeroed.
+
+(** * Sessions: several transfers on one zckDL with ARBITRARY responses
+
+    [session] (Dl/Session.v) = any number of transfers, each preceded by zck_dl_reset and a new
+    missing range, each with arbitrary header lines and arbitrary body fragments that may stop
+    anywhere.  The no-OOB / always-returns theorems above hold for every state, hence at every
+    callback of every session.  What is written obeys the C05 guarantees over the whole
+    session (corollaries of C05_session): *)
+Theorem C17_session : forall H doff rx_comp rx_exec tab0 file0 ts x,
+  disjoint_tab doff tab0 -> sess_inv H doff tab0 file0 x ->
+  sess_inv H doff tab0 file0 (session H doff rx_comp rx_exec x ts).
+Proof. exact session_inv. Qed.
+Print Assumptions C17_session.
+
+Theorem C17_session_valid_untouched : forall H doff rx_comp rx_exec tab0 file0 ts x t c,
+  disjoint_tab doff tab0 -> sess_inv H doff tab0 file0 x ->
+  nth_error tab0 t = Some c -> c_valid c = VValid ->
+  let s := x_dl (session H doff rx_comp rx_exec x ts) in
+  (exists c', nth_error (d_tab s) t = Some c' /\ c_valid c' = VValid /\
+              c_start c' = c_start c /\ c_len c' = c_len c /\ c_digest c' = c_digest c) /\
+  fread (d_file s) (doff + c_start c) (N.to_nat (c_len c)) =
+  fread file0 (doff + c_start c) (N.to_nat (c_len c)).
+Proof. exact session_valid_untouched. Qed.
+Print Assumptions C17_session_valid_untouched.
+
+Theorem C17_reset_reestablishes : forall H doff x,
+  let s := x_dl (dl_reset x) in
+  dl_wf2 doff (missing_ridx (d_tab s)) (d_tab s) s /\ verified H doff (d_tab s) s.
+Proof. exact reset_wf. Qed.
+Print Assumptions C17_reset_reestablishes.
+
+(** a re-scan of the target between transfers (zck_find_valid_chunks + zck_reset_failed_chunks,
+    modelled by its specification: flags recomputed from the file) leaves the file alone, makes
+    every valid flag true, and is a fresh starting point for the session invariant *)
+Theorem C17_rescan_sound : forall H doff x t c',
+  d_err (x_dl x) = false ->
+  nth_error (d_tab (x_dl (rescan H doff x))) t = Some c' -> c_valid c' = VValid ->
+  (t = 0%nat /\ c_len c' = 0) \/
+  (doff + c_start c' + c_len c' <= len (d_file (x_dl x)) /\
+   chunk_ok H c' (fread (d_file (x_dl (rescan H doff x))) (doff + c_start c') (N.to_nat (c_len c')))).
+Proof. exact rescan_sound. Qed.
+Print Assumptions C17_rescan_sound.
+
+Theorem C17_rescan_restart : forall H doff x,
+  sess_inv H doff (d_tab (x_dl (rescan H doff x))) (d_file (x_dl x)) (rescan H doff x).
+Proof. exact rescan_restart. Qed.
+Print Assumptions C17_rescan_restart.
 
 (** the contract is satisfiable by a realistic oracle: the literal matcher (the meaning of the
     patterns zchunk builds, compared with glibc regexec on every run) obeys it *)
